@@ -429,6 +429,8 @@ def run(ctx):
     D.error_discipline(ctx, "R-C13.10", floor=440)
 
     # ---- borrowed obligations (mechanisms owned by other properties that this property's verdict also rests on)
+    # the journal writer frames every record completely (write_all) — a short write must surface as an error
+    ctx.borrow("C03", ["R-C03.1"], "R-C13.11")
     # reopening after a failed (short) write recovers what was acknowledged: the torn tail is cut, never fatal
     ctx.borrow("C03", ["R-C03.3"], "R-C13.9")
 
